@@ -820,6 +820,7 @@ func witnessCases() []*e2eCase {
 func runE2E(r *rand.Rand) {
 	ctx := context.Background()
 	runScale(r)
+	callFormsStage()
 	runConcurrent(r)
 	nRandom, maxArity, nVals := 80, 20, 3
 	if hx.Thorough() {
